@@ -327,6 +327,29 @@ def r8(ctx):
     import c09
     c09.r10(ctx)
 
+def r9(ctx):
+    """'every non-final or event-bearing fragment asks for confirmation and the next one is sent only after the matching confirm':
+    the series state (expected confirm, whether more fragments follow) that format_first_read_response returns TOGETHER with the
+    first fragment is what gets recorded for that response, in both READ arms (a fresh READ and a READ repeated from idle). A response
+    sent with CON but recorded without its series is never waited for: its CONFIRM is ignored and its events stay Written."""
+    prog = ctx.prog
+    bd = prog.abody("OutstationSession::process_request_from_idle")
+    sym = ctx.sym(bd)
+    cl = lambda x: mentions_call(x, r"OutstationSession::classify$")
+    for var in ("NewRead", "RepeatRead"):
+        arms = arm_edges(ctx, bd, g_is(cl, var))
+        if len(arms) != 1:
+            raise AnchorError("process_request_from_idle: %s arm" % var)
+        reg = region_of(bd, arms[0])
+        news = [c for c in call_sites(bd, r"LastValidRequest::new$") if c.idx in reg]
+        ctx.check(len(news) == 1, "read-series:%s:site" % var, "the %s arm builds one LastValidRequest" % var, bd.where(arms[0].edge[1]))
+        for c in news:
+            e = sym.call_expr(c.term)
+            resp, series = e[2][2], e[2][3]
+            fr = lambda x: mentions_call(x, r"OutstationSession::format_first_read_response$")
+            ctx.check(fr(resp) and fr(series), "read-series:%s:recorded" % var, "LastValidRequest::new(.., response, series) both come from format_first_read_response (%s)" % expr_str(series)[:50], bd.where(c.idx), bad_detail="the %s arm records series = `%s`: the series state returned with the first fragment is dropped, so a response that asks for confirmation is never waited for" % (var, expr_str(series)[:60]))
+
+
 RULES = [
     ("C11.R1", "T5", "the static writer reads the frozen copy only", r1),
     ("C11.R2", "T2", "events before static, static only when all selected events fit; queue pop/update discipline", r2),
@@ -336,4 +359,5 @@ RULES = [
     ("C11.R6", "T8/T5", "a partially written range resumes at the index that did not fit", r6),
     ("C11.R7", "T2-loop/T8", "solicited confirm wait: deadline discipline; the expected confirm sequence is that of the current fragment", r7),
     ("C11.R8", "T3", "a range header cut by a full fragment announces only the objects it carries (shared with C09.R10)", r8),
+    ("C11.R9", "T8", "both READ arms record the series state returned with the first fragment", r9),
 ]
